@@ -85,11 +85,18 @@ Proof. exact op_law_sound_patched. Qed.
 Print Assumptions C02_op_law.
 
 (* ---- 4. replacements -------------------------------------------------------------------- *)
+(* STATEMENT CHANGED with the repair of the library (the _id of a replacement is taken from the
+   document being replaced, a null _id counting as absent): a replacement without an _id on a
+   document whose _id is null used to be refused (KeyError) and is now accepted, yielding a
+   document WITHOUT an _id, so the law is stated for results that carry an _id in that case
+   (counterexample without the premise: replace_law_null_id in Proofs/C02Replace.v; the
+   collection never stores such a result, so C02_replace_step below is unchanged). *)
 Theorem C02_replace : forall spec r now d d',
   patch r = r -> wf_value r = true ->
   (exists rfs, r = VDoc rfs /\ rfs <> [] /\
                forallb (fun kv => negb (starts_dollar (fst kv))) rfs = true) ->
   replace_id_risk spec r d = false ->
+  (doc_id d = Some VNull -> doc_id d' <> None) ->
   apply_update spec r false now d = Ok d' -> replace_law r d d' = true.
 Proof. exact replace_law_sound. Qed.
 Print Assumptions C02_replace.
